@@ -7,7 +7,13 @@ all of its prefixes):
   scope-malformed   random histories with unmatched `e` (EndScope below depth 0) and imports inside blocks:
                     Go vs model on everything; Go vs spec where the spec speaks (see spec_view)
   vmscope           the same through the real VM wrappers with two predefined names (G, H), plus no-frame VMs
-The program-level stream (probe programs through `run`) is added by run_program_stream (hook below).
+The program-level streams (probe programs through `run`) are added by run_program_stream (hook below):
+  scope-prog        random scope programs (props/progs.py scope_program)
+  rebind-prog       the rebinding matrix (props/rebind.py): two bindings of one name — 令 / 恒为 / 令： / several names / 得到 in both
+                    call forms, at statement level, inside expressions and in loop conditions / loop variables / 输入 / method and
+                    type definitions / predefined names — × assignment (direct, and by a callee) × same block / inner block /
+                    after the inner block ended, inside program bodies, method bodies, handlers, branches, loop bodies run for
+                    several passes and object methods, with probes that read the name after every step
 """
 import itertools
 
@@ -15,7 +21,9 @@ RULE = ("scope-exhaustive: all 10^L histories (L=5 quick, 6 thorough; prefixes i
         "begin/end/declare/declare-const/assign/lookup on 2 names. scope-random / vmscope: random histories, length <= 30 "
         "quick / <= 200 thorough, nesting depth <= 6, 3-4 names (vmscope: 2 locals + 2 predefined). scope-malformed: unmatched "
         "ends and imports inside blocks. non-trivial = the history opens a block, declares successfully, and some lookup/"
-        "assignment answers a value or an error 42/43/44")
+        "assignment answers a value or an error 42/43/44. rebind-prog: 1 200 quick / 30 000 thorough programs that walk the "
+        "matrix (way of binding) x (way of binding | assignment) x (same block | inner block | after the inner block) cell by cell, "
+        "1-3 cells per program, block kind drawn per cell; judged by the spec semantics on the intended tree")
 ASSUMPTIONS = ["element values are opaque to the symbol table (harness uses small integers wrapped in value.Number)",
                "balanced use: the spec is silent once an `end` has no open block (evaluator pairs every BeginScope with a deferred EndScope); "
                "Go and model are still compared there",
@@ -272,6 +280,34 @@ def run_program_stream(ctx):
     n = ctx.n(2000, 50000)
     ps = [g.scope_program() for _ in range(n)]
     progs.run_stream(ctx, 'scope-prog', ps, nontrivial=lambda src, go: src.count('    令') >= 1)
+    run_rebind_stream(ctx, g)
+
+
+def run_rebind_stream(ctx, g, n=None):
+    """the rebinding matrix (props/rebind.py): way of binding × way of binding × same block / inner block / after the inner block,
+    in every kind of block, with probes; judged by the spec semantics on the intended tree"""
+    from props import progs, rebind
+    ps, tags = rebind.programs(g, n or ctx.n(1200, 30000))
+    marks = ('令', '得到', '遍历', '输入', ' = ')
+    progs.run_stream(ctx, 'rebind-prog', ps, nontrivial=lambda src, go: sum(src.count(m) for m in marks) >= 4)
+    cells = set()
+    for t in tags:
+        for first, second, place, ctxk in t:
+            cells.add((first, second, place))
+            ctx.count('rebind:first=' + first)
+            ctx.count('rebind:second=' + second)
+            ctx.count('rebind:place=' + place)
+            ctx.count('rebind:block=' + ctxk)
+            if place in ('same', 'after2') and first in rebind.CONST_KINDS and second in ('yield', 'chain', 'yieldx', 'chainx', 'yieldw'):
+                ctx.count('rebind:得到-over-a-constant-of-its-own-block')
+            if place in ('same', 'after2') and second in rebind.STMT_BINDERS and second != 'iter' and first != 'iter':
+                ctx.count('rebind:second-binding-in-the-same-block')
+            if second in ('assign', 'cassign') and first in rebind.CONST_KINDS:
+                ctx.count('rebind:assignment-to-a-constant')
+    ctx.count('rebind:cells-covered', len(cells))
+    ctx.count('rebind:cells-total', len(rebind.cells()))
+    ctx.streams[-1]['cells_covered'] = len(cells)
+    ctx.streams[-1]['cells_total'] = len(rebind.cells())
 
 
 def replay(ctx, data):
